@@ -1,6 +1,7 @@
 package main
 
 import (
+	"encoding/json"
 	"flag"
 	"fmt"
 	"os"
@@ -30,8 +31,23 @@ func main() {
 		selftest = flag.Bool("selftest", false, "run the mutant catalogue (all or -property)")
 		list     = flag.Bool("list", false, "list obligations")
 		mutant   = flag.String("mutant", "", "selftest: only this mutant id")
+		explain  = flag.String("explain", "", "replay: re-evaluate the obligation recorded in this violation file on the current tree")
 	)
 	flag.Parse()
+	explainKey := ""
+	if *explain != "" {
+		b, err := os.ReadFile(*explain)
+		var o Obligation
+		if err == nil {
+			err = json.Unmarshal(b, &o)
+		}
+		if err != nil || !strings.Contains(o.Key, ".") {
+			fmt.Fprintln(os.Stderr, "cannot read violation file:", *explain, err)
+			os.Exit(2)
+		}
+		explainKey = o.Key
+		*prop = o.Key[:strings.Index(o.Key, ".")]
+	}
 	if t := os.Getenv("VERIF_TIER"); t != "" && !flagSet("tier") {
 		*tier = t
 	}
@@ -69,7 +85,7 @@ func main() {
 	}
 	worst := 0
 	for _, id := range ids {
-		code := runProperty(P, props[id], *tier, *verif, *list, *repo)
+		code := runProperty(P, props[id], *tier, *verif, *list, *repo, explainKey)
 		if code > worst {
 			worst = code
 		}
@@ -87,7 +103,7 @@ func flagSet(name string) bool {
 	return set
 }
 
-func runProperty(P *Prog, pd *propDef, tier, verif string, list bool, repo string) (code int) {
+func runProperty(P *Prog, pd *propDef, tier, verif string, list bool, repo string, explainKey string) (code int) {
 	r := NewRun(pd.ID, tier, P, verif)
 	r.Declined = pd.Declined
 	func() {
@@ -104,6 +120,24 @@ func runProperty(P *Prog, pd *propDef, tier, verif string, list bool, repo strin
 	if list {
 		for _, o := range r.Obls {
 			fmt.Printf("%-12s %s  %s  %s\n", o.Status, o.Key, o.Where, o.Detail)
+		}
+	}
+	if explainKey != "" {
+		// replay of one recorded obligation: evidence of the regular run is left untouched
+		o, ok := r.oblByKey[explainKey]
+		switch {
+		case !ok:
+			fmt.Printf("replay %s: the construct no longer exists on this tree (no such obligation)\n", explainKey)
+			return 0
+		case o.Status == "violated":
+			fmt.Printf("replay %s: still violated\n  at %s\n  %s\n", o.Key, o.Where, o.Detail)
+			for _, w := range o.Witness {
+				fmt.Println("    " + w)
+			}
+			return 1
+		default:
+			fmt.Printf("replay %s: %s on this tree (%s)\n", o.Key, o.Status, o.Detail)
+			return 0
 		}
 	}
 	return r.Finish("other", pd.Explanation, pd.Assumptions)
